@@ -109,6 +109,28 @@ CLAIMED = {
 
 NOT_YET = {}
 
+# what rounds 3 and 4 of the seeded changes added to the drivers (appended to the level text)
+ADDENDA = {
+ "C01": " Added later: rows longer than a page and menu-less sink pages, a menu separator longer than ':', and output sizes at the 16-bit boundary (65535..2^32-1) with a 70 kB page.",
+ "C02": " Added later: a three-byte menu separator and browse labels that the resource expands, in one slot of the family each.",
+ "C03": " Added later: in the last position of a history also a selector followed by a blank, an input with a formatting verb and an input with template syntax; the catch page must render.",
+ "C04": " Added later at the engine level: a flushing persister, an engine with a first function, and ResetOnEmptyInput with the empty input (three further modes).",
+ "C05": " Added later: a multi-byte answer (limits count bytes) and a directed family of four applications (taken and not-taken CATCH after MAP and MOUT, a sink symbol reused as a sized value, a value loaded below the entry node and left before the session ends), all histories of depth 4/5 in both modes with and without an output size.",
+ "C07": " Added later: an engine WITH a persister kept for the whole session, a gateway that serves each request through engine.Loop, and - per application - all pairs of histories of two sessions served alternately (second one also starting two requests later) through ONE flushing persister, compared with being served alone; corpus applications with a first function, two lists with different browse labels, a failing load followed by another failing instruction.",
+ "C08": " Added later: deep descents with a first function and after a failed load, junk input at the deepest point.",
+ "C09": " One of the values is the byte 0xff (not valid UTF-8); the clone copies every scalar field the tree declares.",
+ "C10": " Added later: SetLock(0,false) as a seal request, eng (the library's default language) as one of the two languages, keys handed over as slices with caller-owned bytes behind them, value buffers overwritten by the caller after the call, and keys of 251/252 bytes.",
+ "C11": " Added later: listing on the Postgres backend, sessions whose ids contain each other (own listing exact), records copied with Get+Put, and three persister arrangements (one per session, one re-pointed with WithSession, store handle shared with code that selects USERDATA).",
+ "C12": " Added later: every operation of the request is also answered once with an I/O error (refused; writes also as short writes) after which the request runs on - also with a flushing persister and a client that retries a failed Finish; and for every history the next start's read of the record fails once.",
+ "C13": " Added later: Stop directly after an error inside the explicit transaction (may fail; if it reports success the transaction's writes are there).",
+ "C14": " Added later: every spelling of vm.NewLine's integer argument (empty, minimal, zero-padded).",
+ "C15": " A panic raised in Vm.Run's own frame (opcode dispatch) counts as a decoding panic.",
+ "C17": " Added later: an engine with persister kept for the session; the previous page fetched only after the refusal; an application-registered input format (and one that does not compile); every non-alphanumeric single byte; every input handed over in one reused read buffer; and the same question put to engine.Loop (over-long line in the middle of its input).",
+ "C18": " Added later: translations for eng, a label shown as its own symbol by default but translated, DbResource over db/fs with translations stored as <symbol>_<code>, and an engine with a first function (its lookup language is checked like any other).",
+ "C19": " Added later: the library's MenuResource with per-session closures, a six-byte catch node, a template that fails after producing text, engines with a first function; built with the os shim so that the file operations of a save are scheduling points.",
+ "C20": " Added later: a silent leaf, a function that sets TERMINATE and then fails, TERMINATE named in both flag lists, every output size 7..22, ResetOnEmptyInput with the empty input, and an engine with a first function.",
+}
+
 def main():
     props = [json.loads(l) for l in open(os.path.join(D, "properties.jsonl"))]
     checks = []
@@ -124,7 +146,7 @@ def main():
                 "evidence_file": f"/verif/evidence/{pid}.json",
                 "replay_cmd_template": "./run.sh replay {path}",
                 "engine": "vcheck",
-                "level_claimed": {"category": cat, "text": text, "design_ref": ref},
+                "level_claimed": {"category": cat, "text": text + ADDENDA.get(pid, ""), "design_ref": ref},
                 "level_note": note,
                 "technique": tech,
             })
@@ -136,7 +158,7 @@ def main():
         "setup_cmd": "./setup.sh",
         "hooks": {
             "guard": "verif (Go build tag)",
-            "enable": "go build -tags verif (done by run.sh for every check); vm.VerifPoint is the only hook: a callback invoked by Vm.Run before each instruction is decoded",
+            "enable": "go build -tags verif (done by run.sh for every check); two hooks: vm.VerifPoint, a callback invoked by Vm.Run before each instruction is decoded, and asm.VerifWriteSize/VerifWriteSym, exported wrappers of the assembler's integer and string encoders",
             "baseline_off_cmd": "cd /repo && GOFLAGS=-mod=mod GOPROXY=off GOSUMDB=off GOTOOLCHAIN=local go test -json -vet=off -count=1 -timeout 25m ./...",
             "source_commits": hooks_commits,
             "add_only": True,
